@@ -17,7 +17,7 @@ GENERIC_ITEMS = ['Inner', 'G1', 'G2', 'G3', 'G4', 'G5', 'G6', 'G7', 'G8', 'G9', 
 
 # items whose TypeScript name is a solver-chosen string (R*, E*) other than the historical three, or whose declaration is replaced
 # wholesale by `#[ts(type = ..)]` / `#[ts(as = ..)]` on the container (nothing generic is declared)
-NOT_C07 = {'R3', 'R4', 'P11', 'S8', 'AE1'}
+NOT_C07 = {'R3', 'R4', 'P11', 'S8', 'AE1', 'DD6', 'DN6', 'DD7', 'DN7', 'DD8', 'DN8'}
 
 
 def type_text(name, item):
@@ -307,8 +307,13 @@ def native_confirm(v, nat):
         hm = re.match(r'^type [\w$]+(?:<(.*?)>)? = ', decl)
         if not hm:
             return True
-        got = [b.split('=')[0].strip() for b in mirparse.split_top(hm.group(1))] if hm.group(1) else []
-        return got != list(G['corpus'][name]['free'])
+        binders = mirparse.split_top(hm.group(1)) if hm.group(1) else []
+        got = [b.split('=')[0].strip() for b in binders]
+        if got != list(G['corpus'][name]['free']):
+            return True
+        # a parameter with a Rust default carries a default in the declaration as well (and only such a parameter)
+        has_default = {p_[1]: p_[2] is not None for p_ in G['corpus'][name]['params'] if p_[0] == 'type'}
+        return any(('=' in b) != has_default.get(b.split('=')[0].strip(), False) for b in binders)
     # header / body equations: re-derive the expected text from the native inline()
     body = decl.split(' = ', 1)[1][:-1] if ' = ' in decl else ''
     item = G['corpus'][name]
